@@ -31,6 +31,19 @@ class Run:
             o.uid = u
             self.pool[u] = o
         self.dl = DictList()
+        self.shadows = []      # lists another list was derived from (or derived and left behind), with what they held at that moment
+
+    def _derive(self, new, keep_parent=False):
+        """`new` was derived from self.dl (copy, slice, query, +, -, pickle, DictList(dl)).  Both lists stay alive: the trace goes on with one of
+        them, the other must not be affected by anything that happens afterwards."""
+        old = self.dl
+        cont, left = (old, new) if keep_parent else (new, old)
+        self.shadows = (self.shadows + [(left, self.dump_of(left))])[-4:]
+        self.dl = cont
+
+    @staticmethod
+    def dump_of(dl):
+        return {"items": [[o.id, o.uid] for o in list.__iter__(dl)], "index": sorted([k, v] for k, v in dl._dict.items())}
 
     def obj(self, j):
         return self.pool[j[1]]
@@ -93,23 +106,25 @@ class Run:
             elif k == "reverse":
                 dl.reverse()
             elif k == "plus":
-                self.dl = dl + [self.obj(o) for o in op["os"]]
+                self._derive(dl + [self.obj(o) for o in op["os"]])
             elif k == "minus":
-                self.dl = dl - [self.ref(x) for x in op["xs"]]
+                self._derive(dl - [self.ref(x) for x in op["xs"]])
             elif k == "copy":
-                self.dl = copy.copy(dl)
+                # a shallow copy has the same contents: the trace goes on with the copy or with the original (`keep`), the other one is watched
+                self._derive(copy.copy(dl), keep_parent=bool(op.get("keep")))
             elif k == "pickle":
                 new = pickle.loads(pickle.dumps(dl, protocol=op.get("proto", pickle.HIGHEST_PROTOCOL)))
+                self.shadows = []          # the unpickled objects replace the pool's: older lists hold the old objects
                 for o in list.__iter__(new):
                     self.pool[o.uid] = o   # the unpickled objects are the list's objects from now on
                 self.dl = new
             elif k == "getSlice":
-                self.dl = dl[self.sl(op["s"])]
+                self._derive(dl[self.sl(op["s"])])
             elif k == "query":
                 ids = set(op["ids"])
-                self.dl = dl.query(lambda o: o.id in ids)
+                self._derive(dl.query(lambda o: o.id in ids))
             elif k == "initFrom":
-                self.dl = DictList(dl)
+                self._derive(DictList(dl), keep_parent=bool(op.get("keep")))
             else:
                 raise RuntimeError(f"unknown op {k}")
             return None
@@ -255,6 +270,18 @@ def run_sequence(ops, oracle=True):
             coh = [f"observer raised {type(e).__name__}: {e}"]
         for b in coh:
             fails.append({"step": n, "op": op, "what": "incoherent: " + b, "before": before, "after": after})
+        for left, held in r.shadows:
+            # lists derived earlier (or left behind by a derivation) are values of their own: nothing done to another list shows in them
+            try:
+                now = Run.dump_of(left)
+                if now != held:
+                    fails.append({"step": n, "op": op, "what": "an operation on one list changed another list derived from it (or the list it was derived from): "
+                                  f"held {held}, now {now}", "before": before, "after": after})
+                else:
+                    for b in coherence(left):
+                        fails.append({"step": n, "op": op, "what": "another list derived earlier became incoherent: " + b, "before": before, "after": after})
+            except Exception as e:
+                fails.append({"step": n, "op": op, "what": f"observing a list derived earlier raised {type(e).__name__}: {e}", "before": before, "after": after})
         if err is None:
             exp = plain_list(before_items, op, pool_before)
             got = [[o.id, o.uid] for o in list.__iter__(r.dl)]
@@ -322,7 +349,7 @@ def gen_sequence(rng, length):
 
     kinds = ["append"] * 5 + ["insert"] * 5 + ["extend"] * 4 + ["union"] * 2 + ["isub"] * 3 + ["setItem"] * 5 + \
             ["setSlice"] * 5 + ["delItem"] * 4 + ["delSlice"] * 2 + ["pop"] * 4 + ["remove"] * 3 + ["sort"] * 1 + \
-            ["reverse"] * 1 + ["plus"] * 2 + ["minus"] * 2 + ["copy", "pickle", "getSlice", "query", "initFrom"]
+            ["reverse"] * 1 + ["plus"] * 2 + ["minus"] * 2 + ["copy", "copy", "pickle", "getSlice", "query", "initFrom"]
     for _ in range(length):
         k = rng.choice(kinds)
         if len(r.dl) < 3 and rng.random() < 0.5:
@@ -373,6 +400,8 @@ def gen_sequence(rng, length):
             op = {"op": k, "os": objs(rng.randint(0, 3))}
         elif k == "query":
             op = {"op": k, "ids": rng.sample(IDS, rng.randint(0, len(IDS)))}
+        elif k in ("copy", "initFrom"):
+            op = {"op": k, "keep": rng.random() < 0.5}      # go on with the original (the copy is watched) or with the copy (the original is watched)
         else:
             op = {"op": k}
         ops.append(op)
